@@ -298,19 +298,6 @@ theorem hc_pe_eq_doc (sqrt : K → K) (hs : SqrtSpec sqrt) (vt : K) (h : HCConta
 /-! ### sum over contacts: each contact contributes independently -/
 
 omit [LinearOrder K] [IsStrictOrderedRing K] in
-theorem SpF.add_zero' (a : SpF K) : SpF.add a SpF.zero = a := by
-  apply SpF.ext' <;> apply V3.ext' <;> simp [SpF.add]
-omit [LinearOrder K] [IsStrictOrderedRing K] in
-theorem SpF.zero_add' (a : SpF K) : SpF.add SpF.zero a = a := by
-  apply SpF.ext' <;> apply V3.ext' <;> simp [SpF.add]
-omit [LinearOrder K] [IsStrictOrderedRing K] in
-theorem SpF.add_assoc' (a b c : SpF K) : SpF.add (SpF.add a b) c = SpF.add a (SpF.add b c) := by
-  apply SpF.ext' <;> apply V3.ext' <;> simp [SpF.add] <;> ring
-omit [LinearOrder K] [IsStrictOrderedRing K] in
-theorem SpF.add_comm' (a b : SpF K) : SpF.add a b = SpF.add b a := by
-  apply SpF.ext' <;> apply V3.ext' <;> simp [SpF.add] <;> ring
-
-omit [LinearOrder K] [IsStrictOrderedRing K] in
 theorem bodyTotal_foldl (b : Nat) (l : List (Nat × SpF K)) (acc : SpF K) :
     l.foldl (fun acc e => if e.1 = b then SpF.add acc e.2 else acc) acc = SpF.add acc (bodyTotal b l) := by
   induction l generalizing acc with
@@ -379,7 +366,7 @@ omit [LinearOrder K] [IsStrictOrderedRing K] in
 theorem smul_normSq (a : K) (v : V3 K) : normSq (smul a v) = a * a * normSq v := by simp only [normSq, dot, smul]; ring
 
 omit [LinearOrder K] [IsStrictOrderedRing K] in
-theorem tangent_dot_normal' (v n : V3 K) (hn : normSq n = 1) : dot (v - smul (-(-(dot v n))) n) n = 0 := by
+theorem tangent_dot_normal_neg (v n : V3 K) (hn : normSq n = 1) : dot (v - smul (-(-(dot v n))) n) n = 0 := by
   rw [neg_neg]; exact tangent_dot_normal v n hn
 
 /-- **vanishes without penetration**: `depth ≤ 0` produces no contact force at all -/
@@ -407,7 +394,7 @@ theorem hertz_friction_in_tangent_plane (sqrt : K → K) (signif vtrans : K) (m1
   split_ifs with h1 h2 h3
   · exact ⟨dot_zero_left _, dot_zero_left _⟩
   · exact ⟨dot_zero_left _, dot_zero_left _⟩
-  · have t := tangent_dot_normal' (v12 + cross w12 (origin + smul (depth * (1 / 2 - m2.k23 / (m1.k23 + m2.k23))) normal - p12)) normal hn
+  · have t := tangent_dot_normal_neg (v12 + cross w12 (origin + smul (depth * (1 / 2 - m2.k23 / (m1.k23 + m2.k23))) normal - p12)) normal hn
     refine ⟨by rw [smul_dot, t, mul_zero], ?_⟩
     have e : ∀ (a b : K) (f : V3 K), dot (smul a normal + (smul b normal + f)) normal = (a + b) * dot normal normal + dot f normal := by
       intro a b f; simp only [dot, smul, V3.add_x, V3.add_y, V3.add_z]; ring
@@ -443,7 +430,6 @@ theorem hertz_friction_opposes_slip_le_limit (sqrt : K → K) (hs : SqrtSpec sqr
     have hmu := (stribeck_bounds (combineMu2 m1.us m2.us) (combineMu2 m1.ud m2.ud) (combineMu2 m1.uv m2.uv * vtrans)
       (sqrt N * (1 / vtrans)) hud hus (mul_nonneg huv hvt.le) (mul_nonneg hspos.le (by positivity))).1
     generalize sqrt N = s at hsq hspos hmu ⊢
-    generalize stribeck _ _ _ _ = mu at hmu ⊢
     revert h2
     generalize (e * (4 / 3) * _ * depth * sqrt _ + _ : K) = F
     intro h2
@@ -452,11 +438,9 @@ theorem hertz_friction_opposes_slip_le_limit (sqrt : K → K) (hs : SqrtSpec sqr
     · rw [smul_dot]
       have : dot _ _ = N := hN
       rw [this]
-      have : -(F * mu) / s * N ≤ 0 := by
-        have h1' : 0 ≤ F * mu / s := div_nonneg (mul_nonneg hf hmu) hspos.le
-        have : -(F * mu) / s * N = -((F * mu / s) * N) := by ring
-        rw [this]; exact neg_nonpos.mpr (mul_nonneg h1' hN0)
-      exact this
+      have h1' := div_nonneg (mul_nonneg hf hmu) hspos.le
+      have e : ∀ a : K, -a / s * N = -((a / s) * N) := by intro a; ring
+      rw [e]; exact neg_nonpos.mpr (mul_nonneg h1' hN0)
     · rw [smul_normSq, hN, ← hsq]
       apply le_of_eq
       field_simp
